@@ -890,14 +890,14 @@ namespace Givaro {
     template<typename Any> template<typename randIter>
     inline typename GFqDom<Any>::Rep& GFqDom<Any>::nonzerorandom(randIter& g, Rep& a, const Residu_t& s) const
     {
-        a = Rep( ((UTT)(g()) % (s-1)) + 1);
+        a = Rep( ((UTT)(g()) % ((s > 1 ? s : _q)-1)) + 1); // sizes 0 and 1 hold no non-zero element: entire field
         return a = (a<0?a+(Rep)_q:a); //@fixme can it really be <0?
     }
 
     template<typename Any> template<typename randIter>
     inline typename GFqDom<Any>::Rep& GFqDom<Any>::random(randIter& g, Rep& a, const Residu_t& s) const
     {
-        a = Rep( (UTT)(g()) % s);
+        a = Rep( (UTT)(g()) % (s ? s : _q)); // a sampling size of zero means the entire field (givranditer.h)
         return a = (a<0?a+(Rep)_q:a); //@fixme can it really be <0?
     }
 
